@@ -24,12 +24,12 @@ Local Open Scope string_scope.
 
 (** The rebuild loops (target levels from the deepest up; inside, the table
     in file order), for an arbitrary compaction [o2n] of the levels: from any
-    manager satisfying the invariant with [n] variables and reordering off,
-    they never fail, only add nodes, and every root denotes its file
+    manager satisfying the invariant with [n] variables, reordering off and
+    no bound on the number of nodes ([max_nodes = None]), they never fail, only add nodes, and every root denotes its file
     function under the assignment of file levels induced by [o2n]. *)
 Theorem C16_rebuild_correct tbl o2n n rootids s0 r s' :
   wf_tbl tbl o2n n →
-  Inv s0 → last_len s0 = None → nvars s0 = n →
+  Inv s0 → last_len s0 = None → max_nodes s0 = None → nvars s0 = n →
   (∀ u, u ∈ rootids → fvalid tbl u) →
   dddmp_rebuild tbl o2n n rootids s0 = (r, s') →
   r = Ok tt ∧ Inv s' ∧ extends s0 s' ∧
@@ -38,7 +38,8 @@ Theorem C16_rebuild_correct tbl o2n n rootids s0 r s' :
        ∀ a fuel, n < fuel → D s' x a = fden fuel tbl u (fassign o2n a)) rootids rs.
 Proof. exact (fun H => dddmp_rebuild_correct tbl o2n n H rootids s0 r s'). Qed.
 
-(** The loop invariant for ONE target level [j]: if every file node whose
+(** The loop invariant for ONE target level [j] ([LInv] includes: reordering
+    off and [max_nodes = None], so that adding a node cannot fail): if every file node whose
     compacted level is [> j] is in [umap] with the right denotation, then
     after the pass over the table every node of compacted level [≥ j] is. *)
 Theorem C16_level_step tbl o2n n j l s umap r s' :
